@@ -519,6 +519,7 @@ type OrbModel struct {
 	PausedProto map[string]bool // protocol name
 	PausedCC    map[string]bool // "<proto name>|<counterparty>"
 	PausedAct   map[string]bool // action name
+	Unrepresentable bool // some statistics total left the range of a 256-bit integer
 	Limit       uint64
 	In, Out     map[StatKey]*big.Int
 	Count       map[StatKey]uint64 // Denom left empty
@@ -560,6 +561,11 @@ func (m *OrbModel) AddStat(srcChan string, dstProto int, dstCP, denom string, in
 	}
 	m.In[k].Add(m.In[k], in)
 	m.Out[k].Add(m.Out[k], out)
+	if m.In[k].Cmp(max256) > 0 || m.Out[k].Cmp(max256) > 0 {
+		// a total beyond 2^256-1 cannot be recorded by any implementation: from here on the statistics of this run
+		// are outside what C12 can speak about (the module logs the failed update and goes on)
+		m.Unrepresentable = true
+	}
 }
 
 func (m *OrbModel) AddCount(srcChan string, dstProto int, dstCP string) {
